@@ -156,6 +156,7 @@ def run_check(pid, tier, seed, jobs=None):
 def finish(pid, mod, tier, seed, all_cases, records, incon, wall):
     counters = {}
     keys = set()
+    extra_distinct = 0
     evaluations = 0
     samples = []
     violations = []
@@ -180,7 +181,12 @@ def finish(pid, mod, tier, seed, all_cases, records, incon, wall):
         if r.get("harness_error"):
             harness_errors.append({"index": r["i"], "error": r["harness_error"]})
             continue
-        if r.get("nontrivial"):
+        if r.get("distinct_count"):
+            # batch of cases that are distinct by construction (the generator de-duplicates)
+            extra_distinct += int(r["distinct_count"])
+            if len(samples) < 6 and r.get("show") is not None:
+                samples.append(r["show"])
+        elif r.get("nontrivial"):
             for k in (r.get("keys") or [r.get("key") or ("case:%d" % r["i"])]):
                 keys.add(k)
             if len(samples) < 6 and r.get("show") is not None:
@@ -225,7 +231,7 @@ def finish(pid, mod, tier, seed, all_cases, records, incon, wall):
     else:
         mins = {k: v for k, v in mins.items() if not isinstance(v, dict)}
     for k, m in mins.items():
-        have = len(keys) if k == "nontrivial" else counters.get(k, 0)
+        have = (len(keys) + extra_distinct) if k == "nontrivial" else counters.get(k, 0)
         if isinstance(have, list):
             have = len(have)
         if have < m:
@@ -238,7 +244,7 @@ def finish(pid, mod, tier, seed, all_cases, records, incon, wall):
 
     coverage = {
         "evaluations": evaluations,
-        "distinct_nontrivial": len(keys),
+        "distinct_nontrivial": len(keys) + extra_distinct,
         "rule": mod.RULE,
         "samples": samples,
         "cases_generated": len(all_cases),
@@ -288,7 +294,7 @@ def finish(pid, mod, tier, seed, all_cases, records, incon, wall):
         print("INCONCLUSIVE property=%s reason=%s" % (pid, reason))
     else:
         print("OK property=%s tier=%s seed=%d evaluations=%d distinct_nontrivial=%d wall=%.1fs %s"
-              % (pid, tier, seed, evaluations, len(keys), wall, brief_counts))
+              % (pid, tier, seed, evaluations, len(keys) + extra_distinct, wall, brief_counts))
     return code
 
 
